@@ -3,7 +3,7 @@ import CanvasModel.C20
 import CanvasGen.FactsC20
 open Canvas Canvas.C20 Canvas.FactsC20
 
-/-- `0:r.x`, `1:l.m`, `2:g.p.1`, `0:o.o` -/
+/-- `0:r.x`, `1:l.m`, `2:g.p.1`, `0:o.o`, `1:a.c` -/
 def parseEv (s : String) : Option (Tid × Ev) :=
   match s.splitOn ":" with
   | [t, e] =>
@@ -13,6 +13,7 @@ def parseEv (s : String) : Option (Tid × Ev) :=
     | some t, ["l", m] => some (t, .lock m)
     | some t, ["u", m] => some (t, .unlock m)
     | some t, ["o", o] => some (t, .onceDo o)
+    | some t, ["a", x] => some (t, .atomicOp x)
     | some t, ["g", p, v] => v.toNat?.map fun v => (t, .poolGet p v)
     | some t, ["p", p, v] => v.toNat?.map fun v => (t, .poolPut p v)
     | _, _ => none
@@ -25,11 +26,11 @@ def trBody (o : String) : List String := if o == "o" then ["z"] else []
 
 def handleTrace (toks : List String) : Option String := do
   let tr ← toks.mapM parseEv
-  let rs := races trBody ["x", "y", "z", "w"] tr
+  let rs := races trBody ["x", "y", "z", "w", "c"] tr
   let rtxt := if rs.isEmpty then "-" else
     ",".intercalate (rs.map fun (i, j, x) => s!"{i}:{j}:{x}")
   let ob := b01 (obeysB trBody (.guarded (.mu "m")) tr "x") ++ b01 (obeysB trBody (.guarded (.obj "p" 1)) tr "y") ++
-    b01 (obeysB trBody (.byOnce "o") tr "z") ++ b01 (obeysB trBody .readOnly tr "w")
+    b01 (obeysB trBody (.byOnce "o") tr "z") ++ b01 (obeysB trBody .readOnly tr "w") ++ b01 (obeysB trBody .atomicOnly tr "c")
   return s!"wf={b01 (wfB tr)} obeys={ob} races={rtxt}"
 
 def sitePositions (v : VarFact) : List String := (v.writes ++ v.reads ++ v.addrs).map (·.pos)
